@@ -200,6 +200,10 @@ def run(ctx):
             for d, twin in (("n%d" % i, False), ("n%dt" % i, True)):
                 v = inert_twin(nm) if twin else nm
                 tree.write(f"{d}/a{v}.txt".encode("utf-8", "surrogateescape"), b"text\n")
+                if i % 3 == 0:
+                    # the payload entries come after more links than WAP has access keys (12): the rows without a key are rows too
+                    for k_ in range(14):
+                        tree.write(f"{d}/0fill{k_:02d}.txt", b"filler\n")
                 tree.write(f"{d}/a{v}.txt.abstract".encode("utf-8", "surrogateescape"),
                            ((inert_twin(pl) if twin else pl) + "\n").encode("utf-8", "surrogateescape"))
                 # the title carries the raw payload (CR/LF included, markup characters as entities): the title parser
